@@ -187,6 +187,12 @@ func c02ConcurrentProbe(c *Ctx) {
 		deputynode.SetSelfNodeKey(detKey("c02-observer"))
 		var wg sync.WaitGroup
 		res := make([]string, 3)
+		// the by-construction `ignored` check reads the harness's record of accepted hashes, which the WINNING delivery
+		// updates only after its InsertBlock has returned: a loser that returns `ignored` in between would be judged
+		// against a record that is not yet written (a false alarm seen once in 80 runs). Here the ok-count below
+		// (exactly one of the three deliveries is accepted) is the by-construction check.
+		ihook := c02IgnoredHook
+		c02IgnoredHook = nil
 		for g := range res {
 			wg.Add(1)
 			go func(g int) {
@@ -195,6 +201,7 @@ func c02ConcurrentProbe(c *Ctx) {
 			}(g)
 		}
 		wg.Wait()
+		c02IgnoredHook = ihook
 		sort.Strings(res)
 		key := strings.Join(res, "+")
 		c.Count("concurrent:" + key)
